@@ -24,7 +24,7 @@ import (
 
 type Phase struct {
 	Until  time.Duration `json:"until,omitempty"` // phase holds while elapsed < Until; 0 = forever
-	Kind   string        `json:"kind"`            // ok | status | refuse | hang | slow | reset
+	Kind   string        `json:"kind"`            // ok | status | refuse | hang | slow | reset | cutbody | stallbody
 	Status int           `json:"status,omitempty"`
 	Delay  time.Duration `json:"delay,omitempty"`
 }
@@ -45,6 +45,10 @@ type FakeTarget struct {
 	first time.Duration
 	seen  bool
 	dials int
+	// override, when set by a "probe_mode" operation of the scenario, replaces
+	// the timeline: the scenario switches the target's health at a point of the
+	// command history rather than at a point in time
+	override *Phase
 	// observation counters
 	Probes   int
 	Requests int
@@ -71,12 +75,31 @@ func (ft *FakeTarget) phase() Phase {
 	if !ft.spec.AbsBase {
 		el = now - ft.first
 	}
+	if ft.override != nil {
+		return *ft.override
+	}
 	for _, p := range ft.spec.Phases {
 		if p.Until == 0 || el < p.Until {
 			return p
 		}
 	}
 	return Phase{Kind: "ok"}
+}
+
+// SetProbeMode switches how the target answers probes from now on ("ok",
+// "refuse", "reset", "hang", or "status=NNN"); "" returns to the timeline.
+func (ft *FakeTarget) SetProbeMode(mode string) {
+	ft.mu.Lock()
+	defer ft.mu.Unlock()
+	switch {
+	case mode == "":
+		ft.override = nil
+	case strings.HasPrefix(mode, "status="):
+		st, _ := strconv.Atoi(strings.TrimPrefix(mode, "status="))
+		ft.override = &Phase{Kind: "status", Status: st}
+	default:
+		ft.override = &Phase{Kind: mode}
+	}
 }
 
 func (ft *FakeTarget) Connect(ctx context.Context, kind string, client Addr) (func(*Conn), error) {
@@ -157,6 +180,20 @@ func (ft *FakeTarget) serveProbe(c *Conn, ph Phase) {
 			status = ph.Status
 		}
 	}
+	if ph.Kind == "cutbody" || ph.Kind == "stallbody" {
+		// complete header block with the phase's status, a body that never
+		// arrives in full: the connection closes (cutbody) or goes silent until
+		// the prober gives up (stallbody) after half of the announced bytes
+		status = ph.Status
+		body := "probe " + addr + " ................................................"
+		ft.w.H.Add(Event{Kind: "tgt.proberesp", Target: addr, Obj: c.ID(), Status: status, Info: ph.Kind})
+		ft.w.H.Add(Event{Kind: "fault", Target: addr, Obj: c.ID(), Info: "probe-" + ph.Kind})
+		c.Write([]byte(fmt.Sprintf("HTTP/1.1 %d %s\r\nContent-Length: %d\r\nConnection: close\r\n\r\n%s", status, http.StatusText(status), len(body), body[:len(body)/2])))
+		if ph.Kind == "stallbody" {
+			<-c.PeerGone()
+		}
+		return
+	}
 	body := "probe " + addr
 	resp := fmt.Sprintf("HTTP/1.1 %d %s\r\nContent-Length: %d\r\nConnection: close\r\n\r\n%s", status, http.StatusText(status), len(body), body)
 	if c.PeerClosed() {
@@ -179,6 +216,7 @@ type SimDirective struct {
 	Close   bool
 	Chunks  int
 	Gap     time.Duration
+	PreGap  time.Duration // chunked modes: silence between the header block and the first chunk
 	Headers [][2]string
 }
 
@@ -209,6 +247,8 @@ func parseSim(v string) SimDirective {
 			d.Chunks, _ = strconv.Atoi(val)
 		case "gap":
 			d.Gap, _ = time.ParseDuration(val)
+		case "pregap":
+			d.PreGap, _ = time.ParseDuration(val)
 		case "hdr":
 			n, v, _ := strings.Cut(val, ":")
 			d.Headers = append(d.Headers, [2]string{n, v})
@@ -404,6 +444,17 @@ func (ft *FakeTarget) serveConn(c *Conn) {
 			continue
 		}
 		c.Write(head.Bytes())
+		if chunked && d.PreGap > 0 {
+			H.Add(Event{Kind: "fault", Target: addr, Req: rid, Info: "stall-after-headers:" + d.PreGap.String()})
+			t := ft.w.S.NewTimer(d.PreGap)
+			select {
+			case <-t.C:
+			case <-c.PeerGone():
+				t.Stop()
+				H.Add(Event{Kind: "tgt.abort", Target: addr, Obj: c.ID(), Req: rid, Info: "stalled after headers"})
+				return
+			}
+		}
 		if chunked {
 			n := d.Chunks
 			if n <= 0 {
